@@ -347,3 +347,129 @@ class Obs:
     flags = frozenset()
     kernel_checked = False
     machine = None
+
+
+# ---------------------------------------------------------------- generic API
+
+class Loaded:
+    """an ebpfcat program instance, assembled and (if possible) loaded"""
+
+    def __init__(self, ebpf, use_kernel=True):
+        self.ebpf = ebpf
+        self.code = None
+        self.fd = None
+        self.error = None
+        self.status = None
+        if use_kernel and kernel.available():
+            captured = {}
+            real = ebpf_bpf.prog_load
+
+            def capture(prog_type, insns, *a, **k):
+                captured["code"] = bytes(insns)
+                return real(prog_type, insns, *a, **k)
+
+            ebpf_bpf.prog_load = capture
+            try:
+                ebpf.load(log_level=0)
+                self.fd = ebpf.file_descriptor
+                self.status = "ok"
+            except AssembleError as err:
+                self.error = str(err)
+                self.status = "rejected"
+            except OSError as err:
+                self.error = f"{type(err).__name__}: {err}"
+                self.status = "verifier"
+            finally:
+                ebpf_bpf.prog_load = real
+            self.code = captured.get("code")
+        else:
+            try:
+                self.code = ebpf.assemble()
+                self.status = "ok"
+            except AssembleError as err:
+                self.error = str(err)
+                self.status = "rejected"
+
+    def verifier_log(self):
+        import ctypes
+        import os
+        code = self.code
+        lic = ctypes.create_string_buffer(b"GPL")
+        cbuf = ctypes.create_string_buffer(code, len(code))
+        log = ctypes.create_string_buffer(1 << 18)
+        attr = struct.pack("IIQQIIQII16sII", self.ebpf.prog_type.value,
+                           len(code) // 8, ctypes.addressof(cbuf),
+                           ctypes.addressof(lic), 1, len(log),
+                           ctypes.addressof(log), 0, 0, b"verif", 0, 0)
+        try:
+            fd, _ = kernel.bpf(5, attr)
+            os.close(fd)
+            return "loads on retry"
+        except OSError:
+            return log.value.decode("utf8", "replace")[-800:]
+
+
+def make_models(tracker, array_init=None, ncpu=None):
+    """interpreter map models for every map the tracker saw created;
+    array_init: {fd: bytes} initial content of 1-entry array maps"""
+    maps = {}
+    for fd, (mtype, ks, vs, mx, *_) in tracker.maps.items():
+        if mtype == 2:
+            m = interp.ArrayModel(fd, ks, vs, mx)
+            if array_init and fd in array_init:
+                m.values[0][0][:vs] = array_init[fd][:vs]
+        elif mtype == 6:
+            m = interp.ArrayModel(fd, ks, vs, mx,
+                                  ncpu=ncpu or kernel.possible_cpus())
+        elif mtype in (1, 9):
+            m = interp.HashModel(fd, ks, vs, mx, lru=mtype == 9)
+        elif mtype == 3:
+            m = interp.ProgArrayModel(fd, ks, vs, mx)
+        else:
+            continue
+        maps[fd] = m
+    return maps
+
+
+def run_both(loaded, tracker, packet, arrays=None, ktimes=None, randoms=None,
+             differential=True, cpu=0):
+    """arrays: {fd: (mmap object, initial bytes)} for mmap'ed array maps.
+    Returns Obs with .maps = {fd: bytes} for those arrays."""
+    arrays = arrays or {}
+    maps = make_models(tracker, {fd: init for fd, (_, init) in arrays.items()})
+    m = interp.Machine(loaded.code, maps=maps, packet=packet, ktimes=ktimes,
+                       randoms=randoms, cpu=cpu)
+    obs = Obs()
+    obs.machine = m
+    try:
+        obs.retval = m.run()
+        obs.flags = m.flags
+    except interp.Fault as f:
+        obs.fault = str(f)
+    obs.packet = bytes(m.packet)
+    obs.maps = {fd: bytes(maps[fd].values[0][0][:maps[fd].value_size])
+                for fd in arrays}
+    if differential and loaded.fd is not None and obs.fault is None \
+            and not (ktimes or randoms) and len(packet) >= 14:
+        for fd, (mm, init) in arrays.items():
+            mm[:len(init)] = bytes(init)
+        retval, out = kernel.test_run(loaded.fd, bytes(packet))
+        kmaps = {fd: bytes(mm[:len(init)]) for fd, (mm, init) in arrays.items()}
+        if (retval, out, kmaps) != (obs.retval, obs.packet, obs.maps):
+            raise HarnessError(
+                "interpreter and kernel disagree: "
+                f"retval {obs.retval} vs {retval}; packet diff at "
+                f"{[i for i, (a, b) in enumerate(zip(obs.packet, out)) if a != b][:8]}"
+                f" len {len(obs.packet)} vs {len(out)};"
+                f" maps equal={kmaps == obs.maps}")
+        obs.kernel_checked = True
+    return obs
+
+
+def array_fd(tracker, size):
+    """fd of the (only) mmap'able array map of that value size"""
+    fds = [fd for fd, (t, ks, vs, mx, *_) in tracker.maps.items()
+           if t == 2 and vs == size]
+    if len(fds) != 1:
+        raise HarnessError(f"cannot identify array map of size {size}: {fds}")
+    return fds[0]
